@@ -171,7 +171,13 @@ class LoaderCache(Cache):
                     "%s not found in loader cache so there's nothing to clear",
                     loader_name)
         else:
-            for _, loader in self._cache.items():
+            # take the snapshot under the lock: another thread's
+            # get_pype_loader could be adding a loader just now. Do the
+            # clearing itself outside it - each loader has its own lock.
+            with self._lock:
+                loaders = list(self._cache.values())
+
+            for loader in loaders:
                 loader.clear()
 
 
